@@ -178,6 +178,29 @@ def whitespace(rnd, thorough):
     return sorted(set(out))
 
 
+def union_queries():
+    """operands whose static type is a UNION of tuple / struct / function / indexable types that differ in length, fields
+    or arity, used through the operators whose admissibility is decided by a query over the members (`.N`, destructuring,
+    `.field`, calls, indexing): every index / arity from below the shortest member to beyond the longest"""
+    out = []
+    shapes = [
+        ("(int, int)|(int, int, int)", "(1, 2)", "(1, 2, 3)"),
+        ("(int, int)|(string, int, int)|(int, int, int, int)", "(1, 2)", "(\"s\", 2, 3)"),
+        ("struct{a: int}|struct{a: int, b: int}", "struct{a := 1}", "struct{a := 1, b := 2}"),
+        ("(int) -> int|(int, int) -> int", "(x: int) -> int { return x }", "(x: int, y: int) -> int { return x }"),
+        ("[int]|string", "[1]", "\"a\""),
+        ("[(int, int)]|[(int, int, int)]", "[(1, 2)]", "[(1, 2, 3)]"),
+    ]
+    uses = ["p.0", "p.1", "p.2", "p.3", "p.4", "(a, b) := p; a", "(a, b, c) := p; c", "(a, b, c, d) := p; d", "p.a", "p.b", "p.c", "p(1)", "p(1, 2)",
+            "p(1, 2, 3)", "p()", "p[0]", "p[0].2", "p[0].1", "p[0:1]", "p.0 + 1", "p.2 + 1", "for e in p { e }", "p ~", "*p", "p = 1"]
+    for ty, v1, v2 in shapes:
+        for u in uses:
+            out.append("f := (p: %s) -> any { %s }" % (ty, u if ";" in u or u.startswith("for") else "return " + u))
+            out.append("g := () -> %s { return %s }; p := g(); %s" % (ty, v1, u))
+            out.append("c := *(mut true); p := if c { %s } else { %s }; %s" % (v1, v2, u))
+    return out
+
+
 def literal_spacing():
     """value and type literals (what `Variable::from_str` / `Type::from_str` read, also valid program text) with every gap
     between two tokens - also the one after a sign, where the text has no blank - filled with white space the grammar
@@ -298,7 +321,7 @@ def run(res, tier, seed, broken_model):
     base = os.path.join(CACHE, "c03-scratch", str(os.getpid()))
     shutil.rmtree(base, ignore_errors=True)
     streams = [("matrix", matrix(rnd, thorough), "c"), ("constants", constants(rnd, thorough), "c"), ("docs", docs(base), "a"),
-               ("names", name_coincidences(), "c"), ("literal-spacing", literal_spacing(), "a"),
+               ("names", name_coincidences(), "c"), ("literal-spacing", literal_spacing(), "a"), ("union-queries", union_queries(), "c"),
                ("whitespace", None, "a"), ("tokens", token_sequences(rnd, thorough), "a"), ("text", texts(rnd, seed, thorough), "a")]
     total = {}
     for name, progs, which in streams:
